@@ -9,6 +9,8 @@ import Heathcliff.Proofs.GenEvalCt
 import Heathcliff.Proofs.GenEvalCt3
 import Heathcliff.Proofs.C02PH
 import Heathcliff.Proofs.C02PW
+import Heathcliff.Proofs.C02PG
+import Heathcliff.Proofs.C02PGW
 
 /- Property theorems only (statements verbatim; proofs are the helper lemmas of Heathcliff/Proofs). -/
 namespace HC.C02
@@ -547,5 +549,44 @@ theorem levelOK_of_built : type_of% @HC.c02p_levelOK_of_built := @HC.c02p_levelO
     2×2 product and a mixed-size 3 − 2 subtraction): every hypothesis of HOM is discharged and the conclusion evaluates to (8, 10, 16, 3) -/
 theorem hom_program_bgv_example : type_of% @HC.hom_program_bgv_example := @HC.hom_program_bgv_example
 theorem hom_program_bgv_example_val : type_of% @HC.hom_program_bgv_example_val := @HC.hom_program_bgv_example_val
+
+/-! ### levelled programs: the same operations plus `mod_switch_to_next` along a chain (Model/Program.lean `LProg`; Proofs/C02PM.lean, C02PG.lean,
+    witness C02PGW.lean) -/
+
+/-- BGV `mod_switch_to_next` on exact phases: for `phase(a) ≡ v (mod Q)` there are `v'`, `Δ` with `phase'(r) ≡ v' (mod Q')`,
+    `q_L·v' = v + Δ`, `t ∣ Δ`, `‖Δ‖∞ ≤ q_L·t·Σ_{k<size} S^k` for every bound `S ≥ ‖s‖₁`; the result is canonical at the next level, in NTT form,
+    with the unit correction factor `cf·q_L^{-1} mod t` -/
+theorem modSwitchScaleNext_exact_phase : type_of% @HC.c02p_modswitch_ph := @HC.c02p_modswitch_ph
+
+/-- … as a step of the induction: same message, norm `≤ V / q_L + t·Σ_{k<size} S^k` -/
+theorem modSwitchScaleNext_enc : type_of% @HC.c02p_step_ms := @HC.c02p_step_ms
+
+/-- HOM (BGV, levelled).  For every chain of constructor-built levels (`c02p_ChainOK`: bundles of every level, consecutive levels share
+    moduli / tables / plain modulus), every secret with `‖s‖₁ ≤ S`, EVERY program over negate / add / sub / multiply / multiply_plain /
+    mod_switch_to_next (operands of different levels refused, switching below the last level refused), inputs as in HOM at their levels:
+    if the model returns `(lv, r)` and the bookkeeping bound `V` satisfies `2·V < Q_lv`, then `bgvDecrypt` at level `lv` returns the shadow
+    value modulo t. -/
+theorem hom_program_bgv_levelled {chain : Nat → Level} {top : Nat} (hch : c02p_ChainOK chain top) {sk : Array Int}
+    (hsk : sk.size = (chain top).n) {S : Nat} (hS : ∑ k ∈ range (chain top).n, (c02p_sk sk k).natAbs ≤ S)
+    (cts : Nat → Nat × Ct) (pls : Nat → Nat × RnsPoly) (M PL : Nat → Nat → Int) (inB : Nat → Nat × Nat × Nat × Nat)
+    (plB : Nat → Nat × Nat) (prog : LProg) {lv : Nat} {r : Ct}
+    (hin : ∀ i ∈ prog.ctInputs, (cts i).1 ≤ top ∧ c02p_Enc (chain (cts i).1) sk (cts i).2 (M i) (inB i).2.2.2 ∧
+        inB i = ((cts i).1, (cts i).2.cf, (cts i).2.polys.size, (inB i).2.2.2))
+    (hpl : ∀ k ∈ prog.plInputs, RnsCanon (chain (pls k).1) (pls k).2 ∧ c02p_PlainLift (chain (pls k).1) (pls k).2 (PL k) ∧
+        (∀ j, j < (chain top).n → (PL k j).natAbs ≤ (plB k).2) ∧ (plB k).1 = (pls k).1)
+    (hev : prog.eval chain cts pls = .ok (lv, r)) {st : Nat × Nat × Nat} {V : Nat}
+    (hub : prog.noiseUB chain S inB plB = some (st.1, st.2.1, st.2.2, V)) (hV : 2 * V < (chain lv).tool.baseQ.prod) :
+    bgvDecrypt (chain lv) sk r = .ok (Spec.trim (Array.ofFn (n := (chain lv).n) fun j =>
+      Spec.imod (prog.shadow (chain top).n M PL j.val) (chain lv).t.value)) :=
+  HC.hom_program_bgv_levelled hch hsk hS cts pls M PL inB plB prog hin hpl hev hub hV
+
+/-- the induction behind it (level stays within the chain, bookkeeping = (level, factor, size, bound) of the result) -/
+theorem hom_program_bgv_levelled_inv : type_of% @HC.c02p_lprog_inv := @HC.c02p_lprog_inv
+
+/-- NON-VACUITY on a two-level chain built by `Drv.Sch.mkLevel` (q = {97, 113, 193} → {97, 113}, t = 17): program
+    mod_switch(x0·x1) − mod_switch(x0); result at the lower level with correction factor 3; decrypts to (0, 3, 14) -/
+theorem hom_program_bgv_levelled_example : type_of% @HC.hom_program_bgv_levelled_example := @HC.hom_program_bgv_levelled_example
+theorem hom_program_bgv_levelled_example_val : type_of% @HC.hom_program_bgv_levelled_example_val := @HC.hom_program_bgv_levelled_example_val
+theorem chainOK_example : type_of% @HC.c02p_wChainOK := @HC.c02p_wChainOK
 
 end HC.C02
